@@ -42,6 +42,15 @@ namespace asl {
 #include <stdio.h>
 #include <stdlib.h>
 
+#ifdef ASL_VERIF
+// Verification hooks (off unless ASL_VERIF is defined): a process-wide callback invoked at the library's
+// synchronization points. kind: 1 before atomic increment, 2 before atomic decrement, 3 shared storage released,
+// 4 before mutex lock, 5 before mutex unlock, 10.. thread life cycle, 20.. socket server. addr identifies the object.
+typedef void (*asl_verif_hook_t)(int kind, const volatile void* addr);
+inline asl_verif_hook_t& asl_verif_hook() { static asl_verif_hook_t h = 0; return h; }
+inline void asl_verif_point(int kind, const volatile void* addr) { asl_verif_hook_t h = asl_verif_hook(); if (h) h(kind, addr); }
+#endif
+
 #ifndef ASL_NOEXCEPT
 #include <new>
 #define ASL_BAD_ALLOC() throw std::bad_alloc()
